@@ -9,7 +9,8 @@ func init() {
 			{Pkg: "reactive", Harness: "derivedset", Weight: 2, Note: "sources incl. Replace"},
 			{Pkg: "reactive", Harness: "counter", Weight: 2},
 			{Pkg: "reactive", Harness: "sortedset", Config: "nodelete", Weight: 2, Note: "members only add: weight updates race with insertions"},
-			{Pkg: "reactive", Harness: "sortedset", Config: "disjoint", Weight: 2, Note: "deletions allowed, but never of an element whose weight changes concurrently"},
+			{Pkg: "reactive", Harness: "sortedset", Config: "disjoint", Weight: 2, Note: "elements whose weight changes are members throughout; the others are added and deleted"},
+			{Pkg: "reactive", Harness: "sortedset", Config: "noadd", Weight: 2, Note: "all elements are members from the start; weight updates race with deletions only"},
 			{Pkg: "reactive", Harness: "sortedset", Weight: 2, Note: "weight updates racing with Add/Delete/Replace of the same element"},
 			{Pkg: "reactive", Harness: "waitgroup", Config: "nodupadd", Weight: 1, Note: "an element is added at most once"},
 			{Pkg: "reactive", Harness: "waitgroup", Weight: 2, Note: "incl. re-adding pending elements"},
